@@ -28,8 +28,12 @@ pub struct Engine<'a, L> {
     unique_parent: HashMap<Box<str>, Option<(usize, Box<str>)>>,
     // List seeds
     list_seeds: Vec<usize>,
-    // Mark bnode ids as list node, and map to their index
-    list_node: HashMap<Box<str>, usize>,
+    // Mark indexes of bnodes (i.e. a bnode id *in a given graph*) as list node,
+    // and map to the index of their parent
+    list_node: HashMap<usize, usize>,
+    // Number of graphs in which each bnode id has an index
+    // (NB: graph names are indexed in the default graph)
+    bnode_graphs: HashMap<Box<str>, usize>,
     // Mark index of bnode as compound literals
     compound_literals: HashSet<usize>,
 }
@@ -45,6 +49,7 @@ impl<'a, L> Engine<'a, L> {
             unique_parent: HashMap::new(),
             list_seeds: Vec::new(),
             list_node: HashMap::new(),
+            bnode_graphs: HashMap::new(),
             compound_literals: HashSet::new(),
         }
     }
@@ -116,6 +121,9 @@ impl<'a, L> Engine<'a, L> {
             .entry((g_id.clone(), s_id.clone()))
             .or_insert_with(|| {
                 let i = self.gs_id.len();
+                if s_id.starts_with("_:") {
+                    *self.bnode_graphs.entry(s_id.clone()).or_default() += 1;
+                }
                 self.gs_id.push((g_id, s_id));
                 self.node.push(HashMap::new());
                 i
@@ -171,12 +179,14 @@ impl<'a, L> Engine<'a, L> {
             }
             // node 'gs_id' has a unique parent
             let (pg_id, ps_id) = &self.gs_id[*iparent];
-            if pg_id == g_id {
-                // unique parent is in the same graph
+            if pg_id == g_id && self.bnode_graphs[s_id] == 1 {
+                // unique parent is in the same graph,
+                // and this bnode does not appear in any other graph (nor as a graph name):
+                // replacing it with an anonymous list will not break any other link
                 let map = &mut self.node[inode];
                 if is_list_node(map) {
                     // this node is indeed a list node
-                    self.list_node.insert(s_id.clone(), *iparent);
+                    self.list_node.insert(inode, *iparent);
                     if ps_id.starts_with("_:") && pp.as_ref() == RDF_REST {
                         let iparent = *iparent;
                         // the explicit copy of iparent above is required,
@@ -210,7 +220,7 @@ impl<'a, L> Engine<'a, L> {
             // we will include it later
             return Ok(None);
         }
-        if self.list_node.contains_key(s_id)
+        if self.list_node.contains_key(&inode)
             || (self.options.rdf_direction() == Some(RdfDirection::CompoundLiteral)
                 && self.compound_literals.contains(&inode))
         {
@@ -346,7 +356,7 @@ impl<'a, L> Engine<'a, L> {
                     json_syntax::json!({
                         "@id": JsonValue::from(id.as_ref()),
                     })
-                } else if self.list_node.contains_key(id) {
+                } else if self.list_node.contains_key(inode) {
                     let mut list_items = Vec::new();
                     self.populate_list(&mut list_items, *inode)?;
                     json_syntax::json!({
